@@ -260,7 +260,7 @@ ROUND11 = {
  "C07": "E14 derived-field coherence (from C11)",
  "C14": "the dialer is told of every successful attach (guards of the pipeConnected call in addPipe are the attach outcome and the pipe's dialer only)",
  "C15": "conn-configuration: methods called on net / crypto/tls connections and listeners are from an allow-list (no linger, deadline, buffer-size or half-close)",
- "C17": "E5 send-while-shared: a message handed to the socket-level SendMsg with a further reference still held by the sender",
+ "C17": "E5 send-while-shared (a message handed to the socket-level SendMsg with a further reference still held by the sender) and untested select-send arms; recv-owns-memory: Body/Header installed by a transport Recv are not windows into connection-owned buffers (slice fields, bytes.Buffer.Bytes/Next, bufio Peek/ReadSlice)",
  "C20": "E12 nil-safety on macat (the socket exists only behind the test in Run); the output writer is read by printMsg only; E5 send-while-shared",
  "C11": "E14 DERIVED-FIELD COHERENCE: fields filled from a walk over a sibling collection are found automatically and every writer of the collection must clear or rebuild them in the same critical section; E12 nil-safety (from C12); E3 slice-alias: a guarded slice field with an in-place writer is not walked through a copy of its header outside the guard",
  "C12": "E12 NILSAFE: forward must-non-nil dataflow per function over the fields the module itself treats as optional (nil tests / nil stores) and over maps not made at every creation, with entry facts from all call sites and closure creations (greatest fixpoint), kill on calls that may clear, error-checked results, companion fields and correlated merges",
